@@ -5,7 +5,8 @@
     float64: arbitrary functions, so the theorems hold whatever they return. *)
 From Coq Require Import List NArith ZArith Bool String Sorted.
 From Verif Require Import Lib.Utf8 Jsonx.Lex Jsonx.Tok Jsonx.GoStr Jsonx.Parse Jsonx.Json
-  Jsonx.Encode Jsonx.LexProofs Jsonx.ParseProofs Jsonx.Term Jsonx.Balance Jsonx.Seen Jsonx.Pos Jsonx.TermLegacy
+  Jsonx.Encode Jsonx.Script Jsonx.LexProofs Jsonx.ParseProofs Jsonx.Term Jsonx.Balance Jsonx.Seen Jsonx.ScriptProofs
+  Jsonx.Trunc Jsonx.Pos Jsonx.TermLegacy
   Jsonx.GenTypes Gen.JsonxConsts Jsonx.ConstsGen.
 Import ListNotations.
 Local Open Scope N_scope.
@@ -106,6 +107,42 @@ Theorem C08_decode_stream_total :
 Proof. exact (fun F pf ff => decode_all_total pf ff). Qed.
 Print Assumptions C08_decode_stream_total.
 
+(** ONE Decoder driven by ANY sequence of calls - More, Decode and
+    DecodeSeries in any order and any number of times, also after calls that
+    returned errors: every call returns (no panic, fuel never exhausted);
+    every Decode hands the caller a value, or between 1 and 20 errors; every
+    DecodeSeries a result without errors, or no result and between 1 and 20
+    errors. *)
+Theorem C08_decoder_any_call_sequence :
+  forall (F : Type) (pf : list N -> option F) (ff : F -> list N) tm input ops,
+  exists l, script pf ff tm input ops = Ok l /\ List.length l = List.length ops /\ Forall sres_seen l.
+Proof. exact (fun F pf ff => script_total_seen pf ff). Qed.
+Print Assumptions C08_decoder_any_call_sequence.
+
+(** ... and a Decoder is not usable after a parse error: once the calls
+    [ops1] have led to a state in which Parser.Errs() is not empty (a Decode
+    returned the parser's errors, or a DecodeSeries failed on them), every
+    later Decode returns errors and every later DecodeSeries fails - nothing
+    in the Decoder ever empties an error list, and the lexer's list only
+    grows. *)
+Theorem C08_decoder_errors_sticky :
+  forall (F : Type) (pf : list N -> option F) (ff : F -> list N) tm input ops1 ops2 raw l1 st1 l2 st2,
+  jsonx_raw_tokens input = Ok raw ->
+  run_script pf ff tm (p_init (parser_stream raw)) ops1 = Some (l1, st1) ->
+  p_errs st1 <> [] ->
+  run_script pf ff tm st1 ops2 = Some (l2, st2) ->
+  script pf ff tm input (ops1 ++ ops2) = Ok (l1 ++ l2)%list /\ Forall sres_failed l2.
+Proof. exact (fun F pf ff => script_errors_sticky pf ff). Qed.
+Print Assumptions C08_decoder_errors_sticky.
+
+(** DecodeSeries as the first call on a new Decoder is the entry point of the
+    theorems above and below. *)
+Theorem C08_series_on_new_decoder :
+  forall (F : Type) (pf : list N -> option F) (ff : F -> list N) tm s,
+  decode_series_stream pf ff tm s = option_map fst (decode_series_from pf ff tm (p_init s)).
+Proof. exact (fun F pf ff => decode_series_stream_from pf ff). Qed.
+Print Assumptions C08_series_on_new_decoder.
+
 Theorem C08_shell_parse_total : forall input,
   exists r, shell_parse input = Ok r /\ value_or_error r.
 Proof. exact shell_parse_total. Qed.
@@ -145,6 +182,59 @@ Theorem C08_lex_error_rejected_series :
   decode_series pf ff tm input <> Ok (Some res, []).
 Proof. exact (fun F pf ff => lex_error_rejected_series pf ff). Qed.
 Print Assumptions C08_lex_error_rejected_series.
+
+(** End to end, read off the tokens of the whole input: a string token whose
+    literal does not end with its closing quote, a raw string token that does
+    not end with its back quote, a block comment that does not end with "*/"
+    - which is what an input cut inside such a construct ends with - makes
+    Unmarshal and DecodeSeries fail. *)
+Theorem C08_truncated_rejected_unmarshal :
+  forall (F : Type) (pf : list N -> option F) (ff : F -> list N) input raw t e txt,
+  jsonx_raw_tokens input = Ok raw -> In (t, e) raw ->
+  (tty t = TString /\ exists l, tlit t = 34 :: l /\ forall l', l <> l' ++ [34]) \/
+  (tty t = TString /\ exists l, tlit t = 96 :: l /\ forall l', l <> l' ++ [96]) \/
+  (tty t = TComment /\ exists l, tlit t = 47 :: 42 :: l /\ forall l', l <> l' ++ [47]) ->
+  unmarshal pf ff input <> Ok (UOk txt).
+Proof. exact (fun F pf ff => truncated_rejected_unmarshal pf ff). Qed.
+Print Assumptions C08_truncated_rejected_unmarshal.
+
+Theorem C08_truncated_rejected_series :
+  forall (F : Type) (pf : list N -> option F) (ff : F -> list N) tm input raw t e res,
+  jsonx_raw_tokens input = Ok raw -> In (t, e) raw ->
+  (tty t = TString /\ exists l, tlit t = 34 :: l /\ forall l', l <> l' ++ [34]) \/
+  (tty t = TString /\ exists l, tlit t = 96 :: l /\ forall l', l <> l' ++ [96]) \/
+  (tty t = TComment /\ exists l, tlit t = 47 :: 42 :: l /\ forall l', l <> l' ++ [47]) ->
+  decode_series pf ff tm input <> Ok (Some res, []).
+Proof. exact (fun F pf ff => truncated_rejected_series pf ff). Qed.
+Print Assumptions C08_truncated_rejected_series.
+
+(** strtoken.Parse: a lexing error in any token - an unterminated quote in
+    particular - makes the call fail with at least one error. *)
+Theorem C08_shell_lex_error_rejected : forall input raw t e,
+  shell_raw_tokens input = Ok raw -> In (t, e) raw -> e <> [] ->
+  exists e0 es, shell_parse input = Ok (None, e0 :: es).
+Proof. exact shell_lex_error_rejected. Qed.
+Print Assumptions C08_shell_lex_error_rejected.
+
+Theorem C08_shell_unterminated_quote_rejected : forall input raw t e l,
+  shell_raw_tokens input = Ok raw -> In (t, e) raw ->
+  tty t = TString -> tlit t = 34 :: l -> (forall l', l <> l' ++ [34]) ->
+  exists e0 es, shell_parse input = Ok (None, e0 :: es).
+Proof. exact shell_unterminated_quote_rejected. Qed.
+Print Assumptions C08_shell_unterminated_quote_rejected.
+
+(** For every BYTE string - Go's decoding (an undecodable byte is U+FFFD)
+    comes first - every entry point returns: ToJSON, Unmarshal, DecodeSeries,
+    one Decoder under any sequence of calls, strtoken.Parse. *)
+Theorem C08_every_byte_string :
+  forall (F : Type) (pf : list N -> option F) (ff : F -> list N) (bytes : list N) tm ops,
+  (exists r, to_json pf ff (utf8_decode bytes) = Ok r /\ value_or_error r) /\
+  (exists r, unmarshal pf ff (utf8_decode bytes) = Ok r) /\
+  (exists r, decode_series pf ff tm (utf8_decode bytes) = Ok r /\ value_or_error r) /\
+  (exists l, script pf ff tm (utf8_decode bytes) ops = Ok l /\ List.length l = List.length ops /\ Forall sres_seen l) /\
+  (exists r, shell_parse (utf8_decode bytes) = Ok r /\ value_or_error r).
+Proof. exact (fun F pf ff => every_byte_string pf ff). Qed.
+Print Assumptions C08_every_byte_string.
 
 (** ... and a document in which a bracket is left open (more "{" "[" than
     "}" "]" among the tokens the parser receives), or closed once too often,
@@ -318,6 +408,19 @@ Proof.
   split; [right; right; right; left; reflexivity|]. split; [discriminate|vm_compute; reflexivity].
 Qed.
 
+(** The five runes { a : double-quote x, an input cut inside a string: the
+    last token is a string that does not end with a quote; the hypothesis of
+    the end-to-end theorem holds. *)
+Example C08_truncated_example :
+  exists raw t e, jsonx_raw_tokens [123; 97; 58; 34; 120] = Ok raw /\ In (t, e) raw /\
+    tty t = TString /\ tlit t = [34; 120] /\ (forall l', [120] <> l' ++ [34]).
+Proof.
+  eexists _, _, _. split; [vm_compute; reflexivity|].
+  split; [right; right; right; left; reflexivity|]. repeat split.
+  intros l' H. assert (Hl : List.last [120] 0 = List.last (l' ++ [34]) 0) by now rewrite <- H.
+  rewrite last_last in Hl. discriminate.
+Qed.
+
 (** The comment that used to be dropped: "1;/*". *)
 Example C08_trailing_comment_example :
   unmarshal (fun _ => @None N) (fun _ => []) [49; 59; 47; 42] = Ok (UErr EUnexpectedEOF).
@@ -360,6 +463,16 @@ Example C08_unbalanced_example :
   unmarshal (fun _ => @None N) (fun _ => []) [123; 97; 58; 91; 49; 44; 50; 125]
   = Ok (UErr EExpectOp).
 Proof. vm_compute. split; reflexivity. Qed.
+
+(** One Decoder: a header value, then the series, then a Decode at the end of
+    the input (errors), after which nothing succeeds any more. *)
+Example C08_script_example :
+  script (fun _ => @None N) (fun _ => []) (fun _ => Some (fun _ => true))
+    [49; 10; 120; 32; 91; 50; 93; 10]                                   (* "1\nx [2]\n" *)
+    [OpMore; OpDecode; OpSeries; OpMore; OpDecode; OpSeries]
+  = Ok [RMore true; RDec (DOk [49]); RSer (Some [([120], [91; 50; 93])], []); RMore false;
+        RDec (DErrs [EExpectOperand]); RSer (None, [EExpectOperand])].
+Proof. vm_compute. reflexivity. Qed.
 
 (** Twenty-one entries that do not start with a type name: 20 errors kept. *)
 Fixpoint rep_list (n : nat) (l : list N) : list N :=
